@@ -513,19 +513,15 @@ impl<'a> StrftimeItems<'a> {
             Some('%') => {
                 let original = remainder;
                 remainder = &remainder[1..];
-                let mut error_len = 0;
-                if self.lenient {
-                    error_len += 1;
-                }
+                // Number of bytes consumed so far, including the `%`.
+                let mut error_len = 1;
 
                 macro_rules! next {
                     () => {
                         match remainder.chars().next() {
                             Some(x) => {
                                 remainder = &remainder[x.len_utf8()..];
-                                if self.lenient {
-                                    error_len += x.len_utf8();
-                                }
+                                error_len += x.len_utf8();
                                 x
                             }
                             None => return Some(self.error(original, &mut error_len, None)), // premature end of string
